@@ -20,7 +20,14 @@ def reset_registries():
 
 
 def load_library(lib: Library):
-    ns: dict = {}
+    # a real module, as a user's classes live in one: classes made by `exec` in a bare dict get __module__ == 'builtins',
+    # which the library (rightly) takes for a builtin type - parameterized properties were never followed in that set-up
+    import sys
+    import types
+
+    m = types.ModuleType("verif_class_model")
+    sys.modules["verif_class_model"] = m
+    ns = m.__dict__
     exec(compile(lib.source(), "<class-model>", "exec"), ns)
     return ns
 
@@ -136,7 +143,10 @@ def run_cases(ctx, n_libs: int, per_lib: int, focus: str):
                 except Exception as e:  # pragma: no cover
                     ctx.notes.append(f"type oracle error {e}")
                 # ---- C09: callbacks and metadata
-                tags = [t[0] for t in log]
+                # a parameterized-property callback logs the parameter value it received as a third element
+                tags = [t[0] + ("\x00" + t[2] if len(t) > 2 else "") for t in log]
+                if any("\x00" in t for t in body.log):
+                    ctx.dist["parameterized-property call sites"] += 1
                 if tags != body.log:
                     ctx.violate({**case, "fired": tags, "expected": body.log},
                                 "C09: callbacks fired are not exactly the matching call sites (class before method, each once, in order)")
